@@ -11,7 +11,7 @@ CLAIM = ("An operation table spanning every function family (scalar/vector/matri
          "without intrinsics, COMPILER/PLATFORM/ARCH_UNKNOWN, PURE, selected pairs) and at -O0/-O2/-O3; both IRs are executed symbolically on shared inputs and the solver shows every output "
          "bit-identical (NaN payloads excepted) for all argument values.")
 BOUNDS = 'the operation table listed in the evidence (functions_encoded); all argument values (full-width symbolic); loops unwound 16 with unwinding assertions; single-macro configurations plus the listed pairs'
-OUTSIDE = 'macro combinations beyond the listed pairs; operations not in the table; code generation of compilers other than clang-14; NaN payload bits'
+OUTSIDE = 'macro combinations beyond the listed pairs, triples and the quadruple (12 combinations in the thorough tier; every non-semantic macro occurs in at least two of them); operations not in the table; code generation of compilers other than clang-14; NaN payload bits'
 ASSUMPTIONS = ['libm transcendental functions are uninterpreted functions shared by both builds (same arguments => same result)',
                'documented preconditions of the operations (non-zero divisors, bitfield ranges) are assumed on both sides']
 
@@ -141,6 +141,11 @@ CFG = {
     'arch_unknown': ['GLM_FORCE_ARCH_UNKNOWN'], 'pure': ['GLM_FORCE_PURE'], 'cxx_unknown': ['GLM_FORCE_CXX_UNKNOWN'],
     'cxx98+xyzw_only': ['GLM_FORCE_CXX98', 'GLM_FORCE_XYZW_ONLY'], 'inline+ctor_init': ['GLM_FORCE_INLINE', 'GLM_FORCE_CTOR_INIT'], 'swizzle+size_t_length': ['GLM_FORCE_SWIZZLE', 'GLM_FORCE_SIZE_T_LENGTH'],
     'quat_wxyz+explicit_ctor': ['GLM_FORCE_QUAT_DATA_WXYZ', 'GLM_FORCE_EXPLICIT_CTOR'], 'cxx11+pure+inline': ['GLM_FORCE_CXX11', 'GLM_FORCE_PURE', 'GLM_FORCE_INLINE'],
+    # further combinations (thorough tier): each non-semantic macro appears in at least two different companies
+    'cxx03+ctor_init+size_t_length': ['GLM_FORCE_CXX03', 'GLM_FORCE_CTOR_INIT', 'GLM_FORCE_SIZE_T_LENGTH'], 'pure+xyzw_only+quat_wxyz': ['GLM_FORCE_PURE', 'GLM_FORCE_XYZW_ONLY', 'GLM_FORCE_QUAT_DATA_WXYZ'],
+    'cxx14+explicit_ctor+aligned_pure': ['GLM_FORCE_CXX14', 'GLM_FORCE_EXPLICIT_CTOR', 'GLM_FORCE_DEFAULT_ALIGNED_GENTYPES', 'GLM_FORCE_PURE'], 'inline+unrestricted_gentype+swizzle': ['GLM_FORCE_INLINE', 'GLM_FORCE_UNRESTRICTED_GENTYPE', 'GLM_FORCE_SWIZZLE'],
+    'cxx98+quat_wxyz+ctor_init': ['GLM_FORCE_CXX98', 'GLM_FORCE_QUAT_DATA_WXYZ', 'GLM_FORCE_CTOR_INIT'], 'compiler_unknown+platform_unknown+arch_unknown': ['GLM_FORCE_COMPILER_UNKNOWN', 'GLM_FORCE_PLATFORM_UNKNOWN', 'GLM_FORCE_ARCH_UNKNOWN'],
+    'cxx17+size_t_length+xyzw_only+explicit_ctor': ['GLM_FORCE_CXX17', 'GLM_FORCE_SIZE_T_LENGTH', 'GLM_FORCE_XYZW_ONLY', 'GLM_FORCE_EXPLICIT_CTOR'],
 }
 QUICK_CFG = ['cxx98', 'cxx11', 'inline', 'ctor_init', 'xyzw_only', 'swizzle', 'quat_wxyz', 'aligned_pure', 'compiler_unknown', 'size_t_length', 'arch_unknown', 'platform_unknown', 'explicit_ctor']
 OPTS_Q = ['-O2']; OPTS_T = ['-O0', '-O2', '-O3']
